@@ -15,6 +15,7 @@ line numbers against the generated formula text.
 import random, traceback as _tb
 from common import *
 from c05_gen import *
+from c05_par import run_parallel
 
 SMALL = 20
 DEFAULT_LIMIT = mx.get_recursion()
@@ -149,6 +150,8 @@ class Case17:
                               "traceback continues after the raising element with %r: elements unwound earlier by an "
                               "exception a formula handled (expected chain %r)" % (extra, exp_nodes),
                               snippet, tags | {"tail-is-handled-unwinds"})
+                    got = got[:len(exp_nodes)]          # go on with the lines of the chain itself
+                    got_nodes = exp_nodes
                 else:
                     self.fail("chk-traceback-nodes", "traceback has extra elements after the raising element: %r "
                               "(expected chain %r)" % (extra, exp_nodes), snippet, tags)
@@ -161,7 +164,8 @@ class Case17:
             else:
                 self.fail("chk-traceback-nodes", "traceback %r differs from the executing chain %r"
                           % (got_nodes, exp_nodes), snippet, tags)
-            return
+            if got_nodes != exp_nodes:
+                return
         # lines: the formula's own line where the next call / the error occurred
         for i, ((lab, ln), (_, gl)) in enumerate(zip(exp, got)):
             if ln is None:
@@ -172,7 +176,7 @@ class Case17:
                           "sys.exit(1 if [l for _, l in mx.get_traceback()][%d] != %d else 0)" % (i, ln),
                           tags | ({"line-of-raiser"} if i == len(exp) - 1 else {"line-of-caller"}))
                 break
-        if got3 != got:
+        if got3[:len(got)] != got:
             self.fail("chk-traceback-locals", "get_traceback(show_locals=True) names %r, get_traceback() %r"
                       % (got3, got),
                       "sys.exit(1 if [(n, l) for n, l, _ in mx.get_traceback(True)] != mx.get_traceback() else 0)", tags)
@@ -228,15 +232,7 @@ def pending_before_flat(p):
 
 # ====================================================================== case generation
 
-KIND_POOL = "SSPPUVLDOKIZ"
-STYLES = ["plain", "plain", "comp", "gen", "lam", "sub"]
-SITES = {"zde": ["direct", "comp", "gen", "nested", "helper"], "boom": ["direct", "comp", "gen", "nested", "helper"],
-         "none": ["direct"], "depth": ["direct"], "kbi": ["direct"]}
-MAIN_KINDS = ["zde", "boom", "none", "depth"]
-HANDLER_FOR = {"zde": ["zde", "exc", "base"], "boom": ["boom", "base"], "none": ["exc", "base"],
-               "depth": ["exc", "base"], "kbi": ["base"]}
-NONHANDLER_FOR = {"zde": ["boom"], "boom": ["zde", "exc"], "none": ["zde", "boom"], "depth": ["zde", "boom"],
-                  "kbi": ["exc", "zde"]}
+MAIN_KINDS = G_MAIN_KINDS
 
 
 def dags(n):
@@ -249,55 +245,7 @@ def dags(n):
         yield mask, deps
 
 
-def legal_kind(kind, fkind):
-    if fkind == "none" and kind in "UVZ":
-        return "S"
-    if fkind == "kbi" and kind == "L":
-        return "S"
-    return kind
-
-
-def make_spec(n, deps, p, fkind, rnd, extra=False):
-    kinds = [rnd.choice(KIND_POOL) for _ in range(n)]
-    kinds[p] = legal_kind(kinds[p], fkind)
-    # a second failing element whose failure its callers handle
-    ph, hkind = None, None
-    cands = [j for j in range(n) if j != p and any(j in deps[c] for c in range(n))]
-    if cands and rnd.random() < 0.8:
-        ph = rnd.choice(cands)
-        hkind = rnd.choice(MAIN_KINDS + (["kbi"] if extra else []))
-        kinds[ph] = legal_kind(kinds[ph], hkind)
-    handle_all = rnd.random() < 0.7
-    nodes = []
-    for j in range(n):
-        ds = list(deps[j])
-        if rnd.random() < 0.3:
-            ds.reverse()
-        dl = []
-        for d in ds:
-            st = rnd.choice(STYLES)
-            if st == "sub" and kinds[d] != "P":
-                st = "plain"
-            handled = None
-            if kinds[j] != "L":
-                if d == ph and (handle_all or rnd.random() < 0.5):
-                    handled = rnd.choice(HANDLER_FOR[hkind])
-                elif rnd.random() < 0.12:
-                    # a handler that does not catch what passes through it
-                    handled = rnd.choice(NONHANDLER_FOR[fkind])
-                    if d == ph and handled in HANDLER_FOR[hkind]:
-                        handled = None
-            if handled:
-                st = "plain" if st in ("lam",) else st
-            dl.append(Dep(d, st, handled))
-        nodes.append(Node(j, kinds[j], dl))
-    nodes[p].fail = Fail(fkind, rnd.randrange(len(nodes[p].deps) + 1), rnd.choice(SITES[fkind]))
-    if ph is not None:
-        nodes[ph].fail = Fail(hkind, rnd.randrange(len(nodes[ph].deps) + 1), rnd.choice(SITES[hkind]))
-    small = "depth" in (fkind, hkind)
-    spec = Spec(nodes, deep_cached=rnd.random() < 0.7)
-    errmode = rnd.choice(["formula-error"] * 4 + ["original", "handled"])
-    return spec, small, errmode, ph
+make_spec = make_handled_spec
 
 
 def run_model(res, spec, small, errmode, ph, ckey, rnd, max_seq=None):
@@ -343,22 +291,33 @@ def run_model(res, spec, small, errmode, ph, ckey, rnd, max_seq=None):
         C.close()
 
 
-def part_exhaustive(res, tier):
-    nmax = 4
+def case_e(res, item):
+    idx, n, mask, deps, p, fkind = item
+    reset()
+    rnd = random.Random(idx * 104729 + 7)
+    spec, small, errmode, ph = make_spec(n, deps, p, fkind, rnd)
+    run_model(res, spec, small, errmode, ph, ("E", n, mask, p, fkind), rnd)
+
+
+def items_e(tier):
     idx = 0
-    for n in range(1, nmax + 1):
+    for n in range(1, 5):
         for mask, deps in dags(n):
             for p in range(n):
                 for fkind in MAIN_KINDS:
                     idx += 1
                     if tier == "quick" and n == 4 and idx % 4:
                         continue
-                    if res.expired():
-                        return False
-                    reset()
-                    rnd = random.Random(idx * 104729 + 7)
-                    spec, small, errmode, ph = make_spec(n, deps, p, fkind, rnd)
-                    run_model(res, spec, small, errmode, ph, ("E", n, mask, p, fkind), rnd)
+                    yield (idx, n, mask, deps, p, fkind)
+
+
+def part_exhaustive(res, tier):
+    if tier != "quick":
+        return run_parallel(res, case_e, items_e(tier), chunk=16, reserve=0.15)
+    for item in items_e(tier):
+        if res.expired():
+            return False
+        case_e(res, item)
     return True
 
 
